@@ -5,6 +5,10 @@ import json, subprocess, os
 TECH = "contract-based deductive verification of the real Go code: VCs generated from go/ssa of /repo (govc), contracts in //@ comment files, obligations discharged by z3 4.8.12 / z3 5.1.0 / cvc5 1.0.3 and an exact polynomial normaliser"
 
 claimed = {
+ "C03": dict(
+   text="A lemma over the contracts, checked like any caller against its callees: the function verifRoundTrip (build tag verif; derive the key from a seed, sign with any variant/context, verify in either mode) is verified to return true for every seed, message, variant, context and mode, using only the contracts of NewKeyFromSeed, sign and verify (themselves verified against RFC 8032 resp. the documented predicate, C02/C01). On the way it proves that S < L, that the public key and R decode, and that neither is of small order. Membership in a batch at any position and size follows from G1 of VerifyBatch's contract (an entry single verification accepts is never reported false, C06). The cones of C01, C02 and C06 are part of this check, so a code change that breaks either side fails here too.",
+   note="Assumed (named in the evidence): the group/number-theoretic axioms the lemma uses (encoding round trip, B has order exactly L, arithmetic of multiples of B, two small arithmetic facts about L), the property's own excluded case (nonce hash = 0 mod L), and everything C01/C02/C06 assume (bridge lemmas, sliding-window digit property, SHA-512 uninterpreted, trusted multi-scalar routine). The mapping from crypto.Signer options to (variant, context) is C07's.",
+   ref="DESIGN.md §13.3, §13.6"),
  "C06": dict(
    text="VerifyBatch is verified, for every batch length (any n >= 0, any number of 64-entry chunks plus remainder, symbolic chunk size) and every mixture of entries, against a contract whose loop invariants hold at all nine loops: (G1) an entry that single verification (verifyWithOptionsNoPanic, itself verified against the documented predicate) accepts is never reported false, i.e. every entry reported false is one single verification rejects; (G2) the summary flag is exactly the conjunction of the per-entry results; the result vector is fresh with one element per entry; errors exactly for an over-long context, mismatched argument counts or a failing entropy source; (S1) a chunk is handed to the batch equation only after every entry of it passed every non-equation acceptance condition of single verification under the same options; entries decided by the fallback or the remainder loop carry single verification's verdict; (H) the challenge hashed for each batch entry is the one single verification hashes (same dom2 flag, context, R, A, M); no panic for any malformed entry. Quantified invariants are discharged with deterministic instantiation, skolemisation and a case split on the updated entry.",
    note="NOT proved, and named as assumptions in the evidence: the Bos-Coster multi-scalar multiplication and its heap (trusted contract, memory safety and magnitudes only), hence that the point tested is the randomised combination of the entries; and the probabilistic soundness of the batch equation (the 2^-120 clause, M7), which a deductive verifier cannot express. Consequently 'reported true => valid' for batch-accepted chunks is not established here, and a change that corrupts how the scalars/points of the batch path are combined (randomisers, products, negations) without touching the checks above is not detected.",
@@ -80,7 +84,6 @@ claimed = {
 }
 
 not_applicable = {
- "C03": "not claimed: the statement needs (a) the lemma sign(..) => vspec(..) = true over the sign and verify contracts, which needs further mathematical axioms not in the trusted base so far (mulB depends on its argument mod L, encoding round trip, honest keys are not of small order: M4) and non-linear reasoning about S = r + h*a; it was not built, and (b) acceptance by VerifyBatch at every position and size: VerifyBatch's contract (C06) proves that a valid entry is never reported false, which together with (a) would give the batch half, but (a) is missing. The canonical-S half (S < L) is covered by C02/C04/C19 (sign writes modm.Contract of a reduced value; proved). No other technique is substituted.",
  "C17": "not claimed: exactness of multiScalarmultVartime (sum of [s_i]P_i) needs the heap order/permutation invariants and a group-level loop invariant for the Bos-Coster loop, which are not built (the routine has only a trusted safety contract); the statement is also only true outside a degenerate case the property itself calls negligible (second-largest scalar reaching zero before the 128-bit scalars are inserted, DESIGN.md §6 C17), and 'negligible fraction of entropy streams' is not expressible as a contract.",
 }
 
@@ -120,7 +123,7 @@ m = {
  "setup_cmd": "cd /verif/govc && GOFLAGS=-mod=vendor GOPROXY=off GOSUMDB=off GOTOOLCHAIN=local go build -o /verif/bin/govc . && cp /verif/scripts/check.sh /verif/bin/check && chmod +x /verif/bin/check",
  "hooks": {
    "guard": "verif",
-   "enable": "go build tag `verif` (govc loads /repo with -tags=verif[,<config tags>]); the guarded files are comment-only contract files verif_contracts.go, one per package",
+   "enable": "go build tag `verif` (govc loads /repo with -tags=verif[,<config tags>]); the guarded files are the comment-only contract files verif_contracts.go (one per package) and verif_hooks.go in the root package, which holds one function, verifRoundTrip (derive key, sign, verify), whose contract is the lemma of C03; none of them is compiled without the tag",
    "baseline_off_cmd": "cd /repo && GOFLAGS=-mod=mod GOPROXY=off GOSUMDB=off GOTOOLCHAIN=local go test -vet=off -count=1 ./...",
    "source_commits": src,
    "add_only": True,
